@@ -22,12 +22,14 @@ STATE = {}
 def inputs(case):
     """input files are built once per job"""
     key = json.dumps([case.get('names', True), case.get('hmap', False),
-                      case.get('shared_label', False)])
+                      case.get('shared_label', False),
+                      case.get('childless', False)])
     if STATE.get('key') != key:
         STATE['inp'] = ST.Inputs(with_names=case.get('names', True),
                                  hmap=case.get('hmap', False),
                                  shared_label=case.get('shared_label',
-                                                       False))
+                                                       False),
+                                 childless=case.get('childless', False))
         STATE['key'] = key
     return STATE['inp']
 
